@@ -386,3 +386,131 @@ class AndCompute(AndOrBase):
                   "unless the precision warning is emitted: |fraction exceeding in both variables - alpha| <= allowed_error * alpha")
         if case["sample"] == "given":
             cx.oblige("frame.sample", self.sample.buf.writes == 0, "frame")
+
+
+def _replay_and_or(cls_name, is_or):
+    """native replay for the AND / OR search: samples with ties and exact zeros, several alphas; a point violates
+    the clause if no precision warning was emitted and its strict exceedance fraction is off by more than allowed"""
+    import warnings
+    import numpy as np
+    import virocon
+
+    class M:
+        n_dim = 2
+
+        def __init__(self, s):
+            self.s = s
+
+        def draw_sample(self, n):
+            return self.s
+
+        def marginal_icdf(self, p, dim, precision_factor=1):
+            return float(np.quantile(self.s[:, dim], p))
+    rng = np.random.default_rng(11)
+    worst = None
+    for trial in range(12):
+        n = 4000
+        x = rng.weibull(1.5, n) * 3
+        y = rng.lognormal(0.3, 0.5, n)
+        if trial % 3 == 0:
+            y[rng.random(n) < 0.25] = 0.0  # exact zeros (ties on the axis)
+        if trial % 3 == 1:
+            x = np.round(x, 1)
+            y = np.round(y, 1)  # heavy ties
+        s = np.c_[x, y]
+        alpha = [0.05, 0.1, 0.2][trial % 3]
+        err = [0.02, 0.05][trial % 2]
+        with warnings.catch_warnings(record=True) as w:
+            warnings.simplefilter("always")
+            kw = dict(deg_step=10, sample=s, allowed_error=err)
+            c = getattr(virocon, cls_name)(M(s), alpha, **kw)
+        if any("precision" in str(m.message) for m in w):
+            continue
+        pts = c.coordinates[:-1] if not is_or else c.coordinates[:-3]
+        for p in np.asarray(pts, dtype=float):
+            if is_or:
+                pe = np.mean((x > p[0]) | (y > p[1]))
+            else:
+                pe = np.mean((x > p[0]) & (y > p[1]))
+            if abs(pe - alpha) > err * alpha * (1 + 1e-9):
+                worst = (trial, p.tolist(), float(pe), alpha, err)
+                break
+        if worst:
+            break
+    return {"confirmed": worst is not None, "detail": f"point with exceedance outside the tolerance and no warning: {worst}" if worst else "all searched points within tolerance on 12 samples with ties / zeros"}
+
+
+AndCompute.replay = lambda self, case, ob: _replay_and_or("AndContour", False)
+
+
+@contract(CT + "OrContour._compute", ["C04", "C19"], [dict(sample="given"), dict(sample="drawn")], name="or.compute")
+class OrCompute(AndOrBase):
+    """OR contour: every kept point is a searched point (on its ray, checked where it is computed) whose fraction of
+    the sample exceeding it in AT LEAST ONE variable (strictly) is alpha within allowed_error * alpha unless warned;
+    points beyond 1.1 x the sample maximum are dropped, never altered; closure (0, y_last), (0, 0), (x_first, 0)"""
+    cls = "OrContour"
+    is_or = True
+
+    def inputs(self, itp, case):
+        cx = itp.cx
+        self.lo, self.hi = real(cx, "lowest_theta"), real(cx, "highest_theta")
+        cx.assume(T.land(T.gt(self.lo.t, 0), T.lt(self.lo.t, self.hi.t), T.lt(self.hi.t, 90)), "0 < lowest_theta < highest_theta < 90")
+        cx.assumed_safety.append((r"_compute::safe\.index#\d+", "at least one searched point is kept (otherwise coords_y[-1] does not exist)"))
+        return self.base_inputs(itp, case, {"lowest_theta": self.lo, "highest_theta": self.hi})
+
+    def setup(self, itp, case):
+        super().setup(itp, case)
+        me = self
+        q = CT + "OrContour._compute"
+        base_inv = itp.loop_specs[(q, 0)].inv
+        base_havoc = itp.loop_specs[(q, 0)].havoc
+
+        def o_inv(itp_, env, kc):
+            cx = itp_.cx
+            from vf.engine.values import SList
+            cxs, cys = env.lookup("coords_x"), env.lookup("coords_y")
+            me.env_x, me.env_y = env.lookup("x"), env.lookup("y")
+            if not isinstance(cxs, SList):
+                return [("lists_empty", len(cxs) == 0 and len(cys) == 0)]
+            r0 = cx.sym("r0", "int")
+            xm, ym = term_of(env.lookup("x_max_consider")), term_of(env.lookup("y_max_consider"))
+            a, b = me.val(cxs.elem(r0)), me.val(cys.elem(r0))
+            return [("same_length", T.eq(cxs.length, cys.length)),
+                    ("point_r0_good", T.implies(T.land(T.ge(r0, 0), T.lt(r0, cxs.length)),
+                                                z3.And(T.zr(a) > 0, T.zr(b) > 0, T.zr(a) < T.zr(xm), T.zr(b) < T.zr(ym), me.within(a, b))))]
+        itp.loop_specs[(q, 0)] = LoopSpec(o_inv, base_havoc)
+
+    @staticmethod
+    def val(v):
+        if isinstance(v, SArr):
+            return v.get((0,) * v.ndim)
+        return term_of(v)
+
+    def post(self, itp, case, inp, out):
+        cx = itp.cx
+        if out.outcome != "return":
+            cx.oblige("post.returns", False, "post", f"raised {out.exc}: {out.msg}")
+            return
+        coords = self.obj.fields.get("coordinates")
+        if not isinstance(coords, SArr) or coords.ndim != 2:
+            cx.oblige("post.structure", False, "post")
+            return
+        L = T.sub(coords.shape[0], 3)
+        cx.oblige("post.at_least_the_closure", T.ge(L, 0), "post")
+        cx.oblige("post.closure", T.land(T.eq(coords.get((L, 0)), 0), T.eq(coords.get((L, 1)), coords.get((T.sub(L, 1), 1))),
+                                         T.eq(coords.get((T.add(L, 1), 0)), 0), T.eq(coords.get((T.add(L, 1), 1)), 0),
+                                         T.eq(coords.get((T.add(L, 2), 0)), coords.get((0, 0))), T.eq(coords.get((T.add(L, 2), 1)), 0)), "post",
+                  "OR: closed through (0, y_last), (0, 0), (x_first, 0)")
+        r = cx.sym("r0", "int")
+        cx.assume(T.land(T.ge(r, 0), T.lt(r, L)))
+        a, b = coords.get((r, 0)), coords.get((r, 1))
+        cx.oblige("post.points.exceedance", self.within(a, b), "post", "unless warned: |fraction exceeding in at least one variable - alpha| <= allowed_error * alpha")
+        xmax = term_of(itp.lib.table["numpy.max"].fn(itp, [self.env_x], {}))
+        ymax = term_of(itp.lib.table["numpy.max"].fn(itp, [self.env_y], {}))
+        cx.oblige("post.drop_not_alter", T.land(T.lt(a, T.mul(Fraction(11, 10), xmax)), T.lt(b, T.mul(Fraction(11, 10), ymax)), T.gt(a, 0), T.gt(b, 0)), "post",
+                  "kept points are searched points below 1.1 x the sample maximum in both variables (points beyond are dropped, not clipped)")
+        if case["sample"] == "given":
+            cx.oblige("frame.sample", self.sample.buf.writes == 0, "frame")
+
+
+OrCompute.replay = lambda self, case, ob: _replay_and_or("OrContour", True)
